@@ -10,6 +10,7 @@ import KikiVerif.Model.Oset
 import KikiVerif.Spec.Lex
 import KikiVerif.Proofs.Valid
 import KikiVerif.Proofs.Tight
+import KikiVerif.LR.Halt
 
 open KikiVerif
 
@@ -139,6 +140,12 @@ state's kernel, no empty target state) -/
 def doTight : String → String := doValidWith fun g nN C =>
   s!"(tight {Valid.tightB g nN C} productive {Valid.productiveB g})"
 
+/-- `halts`: same request; the termination certificates of `LR/Halt`: `certifiedF` (framed simulation of every
+reduce run; by `Halt.certifiedF_halts` the driver then stops on every input) and `certified` (a potential is
+searched and checked; by `Halt.certified_halts` the driver stops within `bound·(|w|+1)` steps) -/
+def doHalts : String → String := doValidWith fun g _ C =>
+  s!"(halts {Halt.certifiedF C g} potential {Halt.certified C g} bound {Halt.K (Halt.ccOf C) (Halt.findPot C g)})"
+
 /-- `machine-num <hexsrc>`: the model's automaton for a grammar source, as numbers with
 declaration-index codes (the `S` section of a `valid` request), plus a FIRST table (`F`).
 Used to build the certificate for the tables extracted from `parser.rs` (C09). -/
@@ -250,6 +257,7 @@ def main (args : List String) : IO UInt32 := do
     | ["drive"] => pure doDrive
     | ["valid"] => pure doValid
     | ["tight"] => pure doTight
+    | ["halts"] => pure doHalts
     | ["machine-num"] => pure doMachineNum
     | ["oset"] => pure doOset
     | ["chars"] => pure doChars
